@@ -31,10 +31,11 @@ class Diag:
     labels: list = field(default_factory=list)
 
     verification_phase: bool = False      # set by the runner: the diagnostic was produced while discharging obligations
+    tool_limit: str | None = None         # set by the runner: the enclosing function uses a construct the verifier is known to lose facts on
 
     @property
     def refuted(self) -> bool:
-        if self.level != 'error' or self.code is not None or self.undecided:
+        if self.level != 'error' or self.code is not None or self.undecided or self.tool_limit:
             return False
         if self.message.startswith('aborting due to') or 'not all errors may have been reported' in self.message:
             return False
@@ -44,7 +45,7 @@ class Diag:
 
     @property
     def undecided(self) -> bool:
-        return any(m.lower() in self.message.lower() for m in UNDECIDED)
+        return bool(self.tool_limit) or any(m.lower() in self.message.lower() for m in UNDECIDED)
 
 
 @dataclass
@@ -105,6 +106,44 @@ def _parse_air(logdir: str, crate: str) -> dict:
             i += 1
     return obl
 
+
+
+def _guard_call_functions(a) -> dict:
+    """functions of the assembled unit that contain a match arm with a GUARD that calls a function (and whose body is
+    not the R16 unreachable marker). Measured on Verus 0.2026.09.13: the postcondition of an exec call made inside a
+    match guard is lost (`Some(e) if !test(e) => ..` verifies less than the equivalent `if let .. { if !test(e) .. }`),
+    so a failed obligation in such a function is a tool limit, not a refutation."""
+    import rsx
+    out = {}
+    lines = a.text.split('\n')
+    for it in a.items:
+        if it.kind != 'fn' or not it.out_line:
+            continue
+        text = '\n'.join(lines[it.out_line - 1:it.out_end_line])
+        try:
+            toks = rsx.tokenize(text)
+        except Exception:
+            continue
+        for j, t in enumerate(toks):
+            if t.text != 'match':
+                continue
+            b = j + 1
+            try:
+                while toks[b].text != '{':
+                    if toks[b].text in ('(', '['):
+                        b = rsx.match_close(toks, b)
+                    b += 1
+                arms = asm._match_arms(toks, b)
+            except Exception:
+                continue
+            for ps, arrow, bs, be in arms:
+                pat = [x.text for x in toks[ps:arrow]]
+                body = ''.join(x.text for x in toks[bs:be + 1])
+                if 'if' in pat:
+                    g = pat[pat.index('if'):]
+                    if '(' in g and '__arm_outside_contract' not in body:
+                        out[it.ident] = 'exec call inside a match guard (its postcondition is not available to Verus 0.2026.09.13)'
+    return out
 
 def _run_unit_once(template: str, build_root: str, defines=(), seed: int | None = None, rlimit: float | None = None,
              threads: int = 4, timeout: int = 600, log_air: bool = True,
@@ -209,12 +248,17 @@ def _run_unit_once(template: str, build_root: str, defines=(), seed: int | None 
             low = d.message.lower()
             if not any(x in low for x in ('not supported', 'unsupported', 'is not allowed', 'cannot find', 'expected ', 'mismatched types')):
                 d.verification_phase = True
+    limits = _guard_call_functions(a)
+    if limits:
+        for d in diags:
+            if d.function in limits and d.level == 'error' and d.code is None and not d.message.startswith('aborting due to'):
+                d.tool_limit = limits[d.function]
     hard = [d for d in diags if d.level == 'error' and not d.refuted and not d.message.startswith('aborting due to')
             and 'not all errors may have been reported' not in d.message]
     if tool_error is None and hard:
         und = [d for d in hard if d.undecided]
         if und:
-            tool_error = 'undecided: ' + und[0].message
+            tool_error = 'undecided: ' + und[0].message + (f' [tool limit in {und[0].function}: {und[0].tool_limit}]' if und[0].tool_limit else '')
         else:
             tool_error = 'verus/rustc error: ' + hard[0].message + ' @ ' + str(hard[0].origin)
     if tool_error is None and not functions and errors == 0 and verified == 0:
